@@ -175,11 +175,9 @@ const _: () = {
                     type Error = ErrorMessage;
 
                     fn from_param(param: Cow<'p, str>) -> Result<Self, Self::Error> {
-                        ::byte_reader::Reader::new(param.as_bytes())
-                            .read_uint()
-                            .map(|i| Self::try_from(i).ok())
-                            .flatten()
-                            .ok_or_else(|| ErrorMessage(format!("Unexpected path param")))
+                        /* the whole segment, checked: no prefix parse, no wrap-around */
+                        param.parse::<Self>()
+                            .map_err(|_| ErrorMessage(format!("Unexpected path param")))
                     }
 
                     #[cfg(feature="openapi")]
@@ -198,11 +196,9 @@ const _: () = {
                     type Error = ErrorMessage;
 
                     fn from_param(param: Cow<'p, str>) -> Result<Self, Self::Error> {
-                        ::byte_reader::Reader::new(param.as_bytes())
-                            .read_int()
-                            .map(|i| Self::try_from(i).ok())
-                            .flatten()
-                            .ok_or_else(|| ErrorMessage(format!("Unexpected path param")))
+                        /* the whole segment, checked: no prefix parse, no wrap-around */
+                        param.parse::<Self>()
+                            .map_err(|_| ErrorMessage(format!("Unexpected path param")))
                     }
 
                     #[cfg(feature="openapi")]
